@@ -9,6 +9,7 @@
 #include <unordered_map>
 #include <set>
 #include "../ref/prims.h"
+#include "../ref/wireless.h"
 
 const char *const op_names[OP_NKINDS] = { "SUBMIT", "GET_COMPLETED", "FLUSH", "FLUSH_ALL", "QUEUE_SIZE", "GET_NEXT",
                                           "BURST", "FLUSH_BURST", "REINIT", "REATTACH", "MISUSE", "MARK",
